@@ -27,6 +27,41 @@ CHECKS = {
   note="Trusted: the Go scheduler/runtime deadlock detector (children are built CGO_ENABLED=0 because a cgo extra M disables it); Kahn-network determinacy is what makes sampled schedules representative, and is itself monitored by the bit-equality oracle and C09's race runs.",
   technique="stress execution under varied schedules with runtime deadlock detector, goroutine census (leak monitor) and cross-schedule equality oracle",
  ),
+ "C04": dict(
+  category="exploration",
+  text="For all 61 indicators and all strategies (base, compound, decorated, nested) the prefix law (running on s[0:m] gives, bit for bit, the prefix of the run on s) is checked at sampled cuts on long series and at ALL cuts 0..n on series up to 48, and the suffix law (replacing s[m:] never changes an output for a position < m) with multiplicative replacements of very different magnitudes. Both laws are exact (no tolerance) because every stage is a deterministic function of the history. Bounded exploration over sampled configurations/series.",
+  design_ref="DESIGN.md §3 C04",
+  note="Trusted: determinism of the pipelines (monitored by C03). A look-ahead that only shows for inputs outside the sampled classes/lengths is out of reach.",
+  technique="metamorphic runtime monitoring: prefix law (bit-exact) and suffix-replacement law between executions of the real code",
+ ),
+ "C05": dict(
+  category="exploration",
+  text="Every registry strategy (default and random With-configurations), Envelope and Trix strategies, And/Or/Majority/Split/MACD-RSI over real sub-strategies, decorators (also nested and over compounds) and every AllAndStrategies/AllSplitStrategies member is run for every snapshot count from 0 to 2w_s+3 and several longer ones; a monitor counts the actions and checks alphabet, Hold prefix and one-action-per-snapshot. The two strategies known to emit n+1 actions are recognised only by that exact shape.",
+  design_ref="DESIGN.md §3 C05, Appendix B",
+  note="Trusted: w_s computed from the live instance's IdlePeriod()s by the registry rows (harness/internal/reg/strat_*.go); for Or/Majority/Split the guaranteed-Hold prefix is the smallest sub warm-up, for And the largest.",
+  technique="runtime shape monitor (count, alphabet, Hold prefix) over all short lengths",
+ ),
+ "C06": dict(
+  category="exploration",
+  text="Each of the 32 base strategies is run on OHLCV series whose five fields vary independently, at default and random configurations (thresholds randomised so both sides of every comparison occur; Buy/Sell counts are recorded per strategy), and every action is compared with the documented decision rule evaluated on the strategy's own indicator instance over the documented fields. This isolates field wiring, rule, comparison direction and alignment from formula correctness (C01). Known deviations are recognised through one-switch deviation models only.",
+  design_ref="DESIGN.md §3 C06, Appendix B",
+  note="Trusted: the rule readings in harness/internal/reg/strat_*.go (Appendix B; 'crosses above' is read as a level test where the code keeps no previous value; MacdStrategy's undocumented zero-side filter is a code reading, i.e. a regression guard).",
+  technique="differential runtime monitoring against the documented rule evaluated on the strategy's own indicator (one-switch deviation models for known findings)",
+ ),
+ "C15": dict(
+  category="exploration",
+  text="Invariant monitors (ranges, band ordering, containment, non-negativity) run on every value emitted by the 20 indicators the property names, over 11 hostile-but-valid OHLCV classes, many period configurations and lengths up to 400; zero-denominator positions are exempt and counted. No reference implementation decides the verdict (the registry reference is only used to locate zero denominators).",
+  design_ref="DESIGN.md §3 C15",
+  note="Trusted: validity of generated bars (low <= open, close <= high, prices > 0, volume >= 0); slack 1e-6 of the range / 1e-9 of the price scale. ATR is checked for its SMA/EMA variants (with the HMA used by SuperTrend the 'average' is not an average).",
+  technique="runtime invariant monitoring of emitted values under hostile valid workloads",
+ ),
+ "C18": dict(
+  category="exploration",
+  text="Two executions of the real code are related: all prices x 2^a and volumes x 2^b. Indicator outputs must equal the original x 2^(a*dp+b*dv) bit for bit (IEEE-exact), strategies' actions must be identical; x100 / x0.01 within tolerance. Covers all 61 indicators and all strategies incl. compounds and decorators.",
+  design_ref="DESIGN.md §3 C18, Appendix A (degrees)",
+  note="Trusted: homogeneity degrees of Appendix A; magnitudes stay far from overflow/subnormals; amd64 Go does not fuse multiply-add.",
+  technique="metamorphic runtime monitoring: exact power-of-two scale covariance between two executions",
+ ),
  "C16": dict(
   category="exploration",
   text="Every stream helper is compared exactly with a pure slice model for all input lengths 0-6 x all parameters 0-8 (all unequal-length combinations for the zippers), three element types with distinct signed elements and 4 schedule parameterisations, inside the timer-free runner (deadlock report, census, producers must reach close); plus random long inputs. The enumerated small scope is exhaustive; beyond it sampled.",
